@@ -305,7 +305,7 @@ class Lexer:
                     while self.read() in list("0123456789abcdefABCDEF"):
                         value += self.read()
                         self.pos += 1
-            elif self.read().isprintable():
+            elif self.read().isprintable() or self.read() == "\t":
                 value = self.read()
                 self.pos += 1
             else:
